@@ -54,12 +54,15 @@ StartRead == /\ ph = "w" /\ ph' = "r"
              /\ UNCHANGED <<cap, buf, wlog>>
 
 AllOk == \A i \in 1..Len(wlog) : wlog[i].res = "ok"
-\* the reads so far mirror the writes (same kinds, same order)
-InSync(n) == /\ n <= Len(wlog) /\ n <= Len(rlog)
-             /\ \A j \in 1..n : rlog[j].op = MatchingOp(wlog[j].it)
-NextOps == IF Mode = "match" /\ cap # -1 /\ Len(rlog) < Len(wlog) THEN {MatchingOp(wlog[Len(rlog) + 1].it)}
+\* the accepted writes (the caller may carry on after a refused one)
+Acc == SelectSeq(wlog, LAMBDA e : e.res = "ok")
+AccEnc == ConcatEnc([i \in 1..Len(Acc) |-> Acc[i].it])
+\* the reads so far mirror the accepted writes (same kinds, same order)
+InSync(n) == /\ n <= Len(Acc) /\ n <= Len(rlog)
+             /\ \A j \in 1..n : rlog[j].op = MatchingOp(Acc[j].it)
+NextOps == IF Mode = "match" /\ cap # -1 /\ Len(rlog) < Len(Acc) THEN {MatchingOp(Acc[Len(rlog) + 1].it)}
            ELSE ReadOps
-Budget == IF Mode = "match" /\ cap # -1 THEN Len(wlog) + MaxFree ELSE MaxFree
+Budget == IF Mode = "match" /\ cap # -1 THEN Len(Acc) + MaxFree ELSE MaxFree
 DoRead(op) == /\ ph = "r" /\ Len(rlog) < Budget
               /\ LET r == Read(data, pos, demo, op) IN
                  /\ rlog' = Append(rlog, [op |-> op, r |-> r, from |-> pos])
@@ -84,15 +87,20 @@ PackerOK == /\ cap # -1 => Len(buf) <= cap
                   /\ (e.res = "ok") <=> (e.before + Len(Enc(e.it)) <= cap)
                   /\ e.res = "ok" => e.after = e.before + Len(Enc(e.it))
                   /\ e.before <= e.after /\ e.after <= cap /\ e.after = Len(buf)
-                  /\ AllOk => buf = ConcatEnc([i \in 1..Len(wlog) |-> wlog[i].it])
+                  /\ AllOk => buf = AccEnc
+                  \* what was accepted is what written() starts with, in order; a refused write leaves
+                  \* nothing of its own in front of a later accepted item
+                  /\ Len(AccEnc) <= Len(buf) /\ SubSeq(buf, 1, Len(AccEnc)) = AccEnc
+                  /\ (e.res = "ok" /\ Enc(e.it) # <<>>) => e.after = Len(AccEnc)
 
-\* written items are read back identically, with no warning and nothing left over
+\* accepted items are read back identically (also after refused writes), with no warning, and --
+\* when nothing was refused -- nothing is left over
 RoundTripOK ==
-    (cap # -1 /\ AllOk /\ Len(rlog) > 0) =>
+    (cap # -1 /\ Len(rlog) > 0) =>
        LET n == Len(rlog) e == LastR IN
-       /\ InSync(n) => /\ e.r = Expected(wlog[n].it, e.r.to)
-                       /\ e.r.to = e.from + Len(Enc(wlog[n].it))
-       /\ (n = Len(wlog) + 1 /\ InSync(Len(wlog))) =>
+       /\ InSync(n) => /\ e.r = Expected(Acc[n].it, e.r.to)
+                       /\ e.r.to = e.from + Len(Enc(Acc[n].it))
+       /\ (AllOk /\ n = Len(wlog) + 1 /\ InSync(Len(wlog))) =>
              /\ e.from = Len(buf)                                         \* nothing left over but the padding
              /\ e.op.o = "finish" =>
                    ((e.r.w = {}) <=> (IF demo THEN pad < 4 ELSE pad = 0))   \* demo padding rule
